@@ -33,7 +33,7 @@ func ruleR10g(c *Ctx) {
 	var fns []*ssa.Function
 	seen := map[*ssa.Function]bool{}
 	for _, fn := range c.FuncsIn(pkgLedger) {
-		if origName(fn) != "Reverse" || len(fn.Blocks) == 0 || fn.Synthetic != "" || seen[fn] {
+		if (origName(fn) != "Reverse" && origName(fn) != "Reversed") || len(fn.Blocks) == 0 || fn.Synthetic != "" || seen[fn] {
 			continue
 		}
 		seen[fn] = true
@@ -56,16 +56,40 @@ func ruleR10g(c *Ctx) {
 		case *ssa.IndexAddr:
 			return descr(x.X, 0) + "[" + descr(x.Index, 0) + "]", true
 		case *ssa.Alloc:
-			// a local copy of an element (`mirror := t.Postings[j]`)
+			// a local copy of an element (`mirror := t.Postings[j]`), a posting received as a parameter, or a new literal
 			if sv := singleStore(x); sv != nil {
 				if u, ok := sv.(*ssa.UnOp); ok && u.Op == token.MUL {
 					if ia, ok := u.X.(*ssa.IndexAddr); ok {
 						return descr(ia.X, 0) + "[" + descr(ia.Index, 0) + "]", true
 					}
 				}
+				if prm, ok := sv.(*ssa.Parameter); ok {
+					return "posting " + prm.Name(), true
+				}
 			}
+			if x.Comment == "complit" {
+				return fmt.Sprintf("new posting@%d", x.Pos()), true
+			}
+		case *ssa.Parameter:
+			return "posting " + x.Name(), true
 		}
 		return "", false
+	}
+	// a field read as a value: p.Destination of a posting held by value
+	valueField := func(v ssa.Value) (string, string, bool) {
+		f, ok := v.(*ssa.Field)
+		if !ok || !isNamed(f.X.Type(), pkgLedger, "Posting") {
+			return "", "", false
+		}
+		switch x := f.X.(type) {
+		case *ssa.Parameter:
+			return "posting " + x.Name(), fieldOfField(f).Name(), true
+		case *ssa.UnOp:
+			if ia, ok := x.X.(*ssa.IndexAddr); ok && x.Op == token.MUL {
+				return descr(ia.X, 0) + "[" + descr(ia.Index, 0) + "]", fieldOfField(f).Name(), true
+			}
+		}
+		return "", "", false
 	}
 	nStores := 0
 	for _, fn := range fns {
@@ -88,6 +112,10 @@ func ruleR10g(c *Ctx) {
 				}
 				f := fieldOfAddr(s.Addr.(*ssa.FieldAddr))
 				v := s.Val
+				if src, sf, ok := valueField(v); ok {
+					byElem[dst] = append(byElem[dst], fstore{f.Name(), src, sf, s.Pos()})
+					continue
+				}
 				ld, ok := v.(*ssa.UnOp)
 				if !ok || ld.Op != token.MUL {
 					continue
